@@ -376,6 +376,9 @@ type Handle struct {
 	getCalls  int
 	waiters   []chan struct{}
 	Sent      int
+	// failSendIn > 0: the failSendIn-th Send CALL from now fails before it appends anything (a
+	// board that cannot be reached for one request); see ArmSendFailure.
+	failSendIn int
 	// Hook is called around every appended message of Send and around GetMessages of THIS
 	// handle (crash points / scheduling points of one node).
 	Hook func(op, phase string)
@@ -390,18 +393,34 @@ func (b *Board) NewHandle() *Handle {
 // MaxBoardLine mirrors storage/file_storage maxLineSize (id and offset are assigned on append: 64 bytes of slack).
 const MaxBoardLine = 1024 * 1024
 
+// ArmSendFailure makes the k-th Send call from now fail as a whole (k <= 0: disarm).
+func (h *Handle) ArmSendFailure(k int) { h.mu.Lock(); h.failSendIn = k; h.mu.Unlock() }
+
 func (h *Handle) Send(msgs ...storage.Message) error {
+	h.mu.Lock()
+	fail := false
+	if h.failSendIn > 0 {
+		h.failSendIn--
+		fail = h.failSendIn == 0
+	}
+	h.mu.Unlock()
+	if fail {
+		return fmt.Errorf("the board cannot be reached (injected by the harness)")
+	}
+	// the board substitutes have the line limit of the file board (1 MiB, newline included):
+	// boards are finite, the Kafka one too. Like the file board, a call is refused as a whole
+	// before anything is appended when one of its messages cannot go on the board.
+	for _, m := range msgs {
+		if bz, err := json.Marshal(m); err == nil && len(bz)+64 > MaxBoardLine {
+			return fmt.Errorf("message is too long for the board: about %d bytes, at most %d", len(bz)+64, MaxBoardLine)
+		}
+	}
 	for i, m := range msgs {
 		if h.b.Hook != nil {
 			h.b.Hook("send", "pre")
 		}
 		if h.Hook != nil {
 			h.Hook("send", "pre")
-		}
-		// the board substitutes have the line limit of the file board (1 MiB, newline included):
-		// boards are finite, the Kafka one too
-		if bz, err := json.Marshal(m); err == nil && len(bz)+64 > MaxBoardLine {
-			return fmt.Errorf("message is too long for the board: about %d bytes, at most %d", len(bz)+64, MaxBoardLine)
 		}
 		msgs[i] = h.b.appendMsg(m)
 		h.Sent++
